@@ -64,6 +64,12 @@ proof fn lemma_dec_enc_u64s(s: Seq<u64>, tail: Seq<u8>) ensures dec_u64s(enc_u64
 #[verifier::external_body] fn vx_u16_from_le_bytes(b: [u8; 2]) -> (r: u16) ensures r == le16_val(b@) { u16::from_le_bytes(b) }
 #[verifier::external_body] fn vx_u32_from_le_bytes(b: [u8; 4]) -> (r: u32) ensures r == le32_val(b@) { u32::from_le_bytes(b) }
 #[verifier::external_body] fn vx_u64_from_le_bytes(b: [u8; 8]) -> (r: u64) ensures r == le64_val(b@) { u64::from_le_bytes(b) }
+spec fn be16_val(b: Seq<u8>) -> u16 { (b[1] as u16) | ((b[0] as u16) << 8) }
+spec fn be32_val(b: Seq<u8>) -> u32 { (b[3] as u32) | ((b[2] as u32) << 8) | ((b[1] as u32) << 16) | ((b[0] as u32) << 24) }
+spec fn be64_val(b: Seq<u8>) -> u64 { (be32_val(b.subrange(4, 8)) as u64) | ((be32_val(b.subrange(0, 4)) as u64) << 32) }
+#[verifier::external_body] fn vx_u16_from_be_bytes(b: [u8; 2]) -> (r: u16) ensures r == be16_val(b@) { u16::from_be_bytes(b) }
+#[verifier::external_body] fn vx_u32_from_be_bytes(b: [u8; 4]) -> (r: u32) ensures r == be32_val(b@) { u32::from_be_bytes(b) }
+#[verifier::external_body] fn vx_u64_from_be_bytes(b: [u8; 8]) -> (r: u64) ensures r == be64_val(b@) { u64::from_be_bytes(b) }
 #[verifier::external_body] fn vx_u16_to_le_bytes(n: u16) -> (r: [u8; 2]) ensures r@ == le16_bytes(n) { n.to_le_bytes() }
 #[verifier::external_body] fn vx_u16_to_be_bytes(n: u16) -> (r: [u8; 2]) ensures r@ == be16_bytes(n) { n.to_be_bytes() }
 #[verifier::external_body] fn vx_u32_to_le_bytes(n: u32) -> (r: [u8; 4]) ensures r@ == le32_bytes(n) { n.to_le_bytes() }
@@ -508,6 +514,23 @@ spec fn wf_img(x: ThetaImg) -> bool {
 
 proof fn lemma_mul_le(a: int, b: int, c: int) requires 0 <= a <= b, 0 <= c ensures a * c <= b * c { assert(a * c <= b * c) by (nonlinear_arith) requires 0 <= a <= b, 0 <= c; }
 proof fn lemma_sorted_small(e: Seq<u64>) requires e.len() <= 1 ensures sorted_strict(e) { reveal(sorted_strict); }
+// `flags |= BIT` on the small values a flag byte goes through, as arithmetic (so the order of the |= statements does not matter)
+proof fn lemma_flag_or()
+  ensures
+    forall|a: u8| #![trigger a | 2u8] a < 32 ==> (a | 2u8) == (if (a / 2) % 2 == 0 { (a + 2) as u8 } else { a }),
+    forall|a: u8| #![trigger a | 4u8] a < 32 ==> (a | 4u8) == (if (a / 4) % 2 == 0 { (a + 4) as u8 } else { a }),
+    forall|a: u8| #![trigger a | 8u8] a < 32 ==> (a | 8u8) == (if (a / 8) % 2 == 0 { (a + 8) as u8 } else { a }),
+    forall|a: u8| #![trigger a | 16u8] a < 32 ==> (a | 16u8) == (if (a / 16) % 2 == 0 { (a + 16) as u8 } else { a }),
+{
+    assert(forall|a: u8| #![trigger a | 2u8] a < 32 ==> (a | 2u8) == (if (a / 2) % 2 == 0 { (a + 2) as u8 } else { a })) by (bit_vector);
+    assert(forall|a: u8| #![trigger a | 4u8] a < 32 ==> (a | 4u8) == (if (a / 4) % 2 == 0 { (a + 4) as u8 } else { a })) by (bit_vector);
+    assert(forall|a: u8| #![trigger a | 8u8] a < 32 ==> (a | 8u8) == (if (a / 8) % 2 == 0 { (a + 8) as u8 } else { a })) by (bit_vector);
+    assert(forall|a: u8| #![trigger a | 16u8] a < 32 ==> (a | 16u8) == (if (a / 16) % 2 == 0 { (a + 16) as u8 } else { a })) by (bit_vector);
+}
+proof fn lemma_flags_value(e: bool, o: bool) ensures theta_flags(e, o) == 10 + (if e { 4int } else { 0 }) + (if o { 16int } else { 0 }) {
+    let f = theta_flags(e, o);
+    assert(f == 10 + (if e { 4u8 } else { 0u8 }) + (if o { 16u8 } else { 0u8 })) by (bit_vector) requires f == (2u8 | 8u8 | (if e { 4u8 } else { 0u8 }) | (if o { 16u8 } else { 0u8 }));
+}
 proof fn lemma_flags(e: bool, o: bool) ensures flag_empty(theta_flags(e, o)) == e, flag_ordered(theta_flags(e, o)) == o {
     let f = theta_flags(e, o);
     assert(f == 10 || f == 14 || f == 26 || f == 30) by (bit_vector) requires f == (2u8 | 8u8 | (if e { 4u8 } else { 0u8 }) | (if o { 16u8 } else { 0u8 }));
@@ -631,24 +654,9 @@ assert ( ( ( 0u32 >> 24 ) & 0xff ) as u8 == 0u8 && ( ( 0u32 >> 16 ) & 0xff ) as 
 }
 let e = self . empty ;
 let o = self . ordered ;
-assert ( forall | x : u8 | # [ trigger ] ( x | 0u8 ) == x ) by ( bit_vector ) ;
-assert ( flags == theta_flags ( e , o ) ) by ( bit_vector ) requires flags == ( ( ( 0u8 | 2u8 ) | 8u8 ) | ( if e {
-4u8 }
-else {
-0u8 }
-) ) | ( if o {
-16u8 }
-else {
-0u8 }
-) , theta_flags ( e , o ) == ( 2u8 | 8u8 | ( if e {
-4u8 }
-else {
-0u8 }
-) | ( if o {
-16u8 }
-else {
-0u8 }
-) ) ;
+lemma_flag_or ( ) ;
+lemma_flags_value ( e , o ) ;
+assert ( flags == theta_flags ( e , o ) ) ;
 assert ( enc_u64s ( self . entries @ . take ( 0 ) ) =~= Seq :: < u8 > :: empty ( ) ) ;
 }
 let mut vx_i1 = 0 ;
@@ -709,7 +717,8 @@ if self . is_estimation_mode ( ) {
 bytes . write_u64_le ( self . theta ) ;
 }
 proof {
-assert ( flags == 26u8 ) by ( bit_vector ) requires flags == ( ( 0u8 | 2u8 ) | 8u8 ) | 16u8 ;
+lemma_flag_or ( ) ;
+assert ( flags == 26u8 ) ;
 }
 let ghost head = bytes @ ;
 let ghost n0 = self . entries @ . len ( ) as u32 ;
